@@ -34,7 +34,22 @@ func writeReplay(o *options, g *Gen, v *Verdict, outDir string) replayResult {
 		confirmed = ok
 		fmt.Fprintf(&b, "\nfull model:\n%s\n", v.Model)
 	} else {
-		fmt.Fprintf(&b, "\nno model (solver answered %s): no-failing-input-found\n", v.Result)
+		fmt.Fprintf(&b, "\nno model (solver answered %s)\n", v.Result)
+		// a typed builder that takes nothing from the model scripts the failing path the obligation
+		// names; it can be run against the real code without a model
+		if c := v.Obl.fc; c != nil && c.fn != nil && c.lemma == nil {
+			if bp := builderPath(o, c); bp != "" {
+				if data, err := os.ReadFile(bp); err == nil && !strings.Contains(string(data), "{{spec:") {
+					ok, log := c.replayWithBuilder(o, v, outDir, bp)
+					fmt.Fprintf(&b, "\nscripted replay against real code (typed builder, no model values needed): %s\n%s\n",
+						map[bool]string{true: "CONFIRMED (test fails on the real code)", false: "not confirmed"}[ok], log)
+					confirmed = ok
+				}
+			}
+		}
+		if !confirmed {
+			fmt.Fprintf(&b, "no-failing-input-found\n")
+		}
 	}
 	_ = os.WriteFile(path, []byte(b.String()), 0o644)
 	return replayResult{path, confirmed}
